@@ -465,6 +465,86 @@ def library_names():
     return sorted(os.path.basename(p)[:-5] for p in glob.glob(os.path.join(REPO, 'library', '*.json')))
 
 
+def check_generated_datatypes(run, r, n):
+    """Generated datatype declarations: uniform, nested (the recursive occurrence at another instance of the type being
+    defined), through functions and lists, several type arguments.  Whatever is accepted must extend the theory by
+    well-typed constants and theorems (constructors, injectivity, distinctness, induction)."""
+    n_acc = 0
+    for k in range(n):
+        try:
+            basic.load_theory('list')
+        except Exception as e:
+            run.stat('datatype_ctx:' + type(e).__name__)
+            return
+        name = 'vt%d' % k
+        targs = r.choice([['a'], ['a'], ['a', 'b'], []])
+        self_ty = (' '.join("'" + x for x in targs) + ' ' + name).strip() if len(targs) <= 1 else "('a, 'b) " + name
+        pa = "'a" if targs else 'nat'
+
+        def arg_type():
+            c = r.randrange(10)
+            if c < 2:
+                return pa
+            if c == 2:
+                return r.choice(['nat', 'bool'])
+            if c < 5:
+                return self_ty if ' ' not in self_ty or not self_ty.startswith('(') else self_ty
+            if c == 5 and len(targs) == 1:
+                return "%s %s" % (self_ty, name)                    # nested: 'a t t
+            if c == 6 and len(targs) == 1:
+                return r.choice(['nat %s' % name, "(%s => %s) %s" % (pa, pa, name), "%s list %s" % (pa, name)])   # another instance
+            if c == 7:
+                return '(%s) list' % self_ty if self_ty.startswith('(') else '%s list' % self_ty
+            if c == 8:
+                return 'nat => %s' % self_ty
+            return pa
+        constrs = []
+        for j in range(r.choice([1, 2, 2, 3])):
+            ats = [arg_type() for _ in range(r.choice([0, 1, 2, 2]) if j else 0)]
+            anames = ['x%d' % i for i in range(len(ats))]
+            constrs.append(dict(name='K%d_%d' % (k, j), args=anames, type=' => '.join(['(%s)' % a_ if '=>' in a_ else a_ for a_ in ats] + [self_ty])))
+        raw = dict(ty='type.ind', name=name, args=targs, constrs=constrs)
+        try:
+            item = items.parse_item(raw)
+        except RecursionError:
+            raise
+        except Exception as e:
+            run.stat('datatype_parse_exc:' + type(e).__name__)
+            continue
+        run.count(('datatype', json.dumps(raw, sort_keys=True).replace(name, 'T').replace('K%d_' % k, 'K')), nontrivial=item.error is None)
+        if item.error:
+            run.stat('datatype:refused')
+            continue
+        n_acc += 1
+        run.stat('datatype:accepted')
+        try:
+            exts = item.get_extension()
+            thy2 = copy.copy(theory.thy)
+            thy2.unchecked_extend(exts)
+        except RecursionError:
+            raise
+        except Exception as e:
+            run.violation('property', 'an accepted generated datatype cannot be turned into an extension (%s): %s' % (type(e).__name__, json.dumps(raw)),
+                          dict(item=raw, error=repr(e)[:300]), key='C11:datatype:get_extension')
+            continue
+        for ext in exts:
+            try:
+                if ext.is_constant():
+                    thy2.check_type(ext.T)
+                elif ext.is_theorem():
+                    for t in list(ext.th.hyps) + [ext.th.prop]:
+                        thy2.check_term(t)
+                    ext.th.check_thm_type()
+            except RecursionError:
+                raise
+            except Exception as e:
+                run.violation('property', 'accepted datatype %s: its extension %s is not well-typed over the extended signature (%s)'
+                              % (json.dumps(raw['constrs']), getattr(ext, 'name', '?'), type(e).__name__),
+                              dict(item=raw, extension=sstr(ext), error=repr(e)[:300], reproduce='items.parse_item(item).get_extension() in theory list'),
+                              key='C11:ext-illtyped:type.ind')
+    run.cov['generated_datatypes'] = dict(generated=n, accepted=n_acc)
+
+
 def check_library_items(run, thys, r):
     n_items = n_ext = 0
     for thy in thys:
@@ -649,6 +729,7 @@ def run_check(tier, seed):
     # ---- items of the library: extensions and round trips
     item_thys = ['logic_base', 'logic', 'set', 'function', 'nat'] if tier == 'quick' else names
     check_library_items(run, item_thys, r)
+    check_generated_datatypes(run, r, 60 if tier == 'quick' else 600)
 
     run.sample(dict(accepted="vdef x y <--> x & ~y :: bool => bool => bool", rejected="vdef x <--> ~(vdef x)"))
     run.cov['rule'] = ('every def item of %d library theories in its own context; generated definitions: 16 templates (good, circular, extra type '
